@@ -47,8 +47,13 @@ class ErrorExtraction(object):
             # exception that would recurse without bound.
             return {}
         for klass in getmro(exception.__class__):
-            if klass in self.registry:
-                extractor = self.registry[klass]
+            try:
+                extractor = self.registry.get(klass)
+            except TypeError:
+                # A class that cannot be hashed (its metaclass defines
+                # __eq__): nothing can have been registered for it.
+                continue
+            if extractor is not None:
                 try:
                     # A copy: the caller adds its own fields to the result, and
                     # the extractor may return a dictionary it keeps (e.g. an
